@@ -3,22 +3,27 @@ package main
 import (
 	"bytes"
 	"fmt"
+	"runtime"
 	"strings"
 )
 
 // hintsFrom derives the external Message.ReadFrom verdicts for the model from what the real run showed:
 // k ProcessInbound calls = k successful parses; if the exchange then failed, the next parse (if the
 // model gets that far) is the failing one. (Record/replay of an external call, see DESIGN §5.3.)
-func hintsFrom(r *sessRun) []bool {
+func hintsFrom(r *sessRun) []int {
 	k := 0
 	for _, cl := range r.tw.calls {
 		if strings.HasPrefix(cl, "I") {
 			k++
 		}
 	}
-	h := make([]bool, k)
-	if classOfErr(r.err) == "error" {
-		h = append(h, true)
+	h := make([]int, k)
+	switch classOfErr(r.err) {
+	case "error":
+		h = append(h, 1)
+	case "connlost":
+		// Message.ReadFrom errors that wrap io.EOF / io.ErrUnexpectedEOF are reported as ErrConnLost
+		h = append(h, 2)
 	}
 	return h
 }
@@ -112,14 +117,28 @@ func mutate(c *Ctx, t []byte) ([]byte, string) {
 func init() {
 	register("C03", "cases: one REAL fbb.Session (master or slave, with or without outbound messages pending) against a complete remote transcript, after which the link is lost: the named hostile shapes first (every shape listed in the property and in DESIGN 5.3), then mutations of conforming transcripts recorded from two-session runs (truncate, delete, insert, substitute, special bytes NUL/0x80/0xff/CR/SOH/STX/EOT, numeric boundary values incl. negative/huge sizes and offsets, duplicated/dropped/shortened lines, spliced hostile lines, corrupted frame bytes, double mutations), then raw random bytes. The same transcript runs through the Lean session model (`session` op): outcome class, wire bytes, callbacks and statistics are diffed. Oracle on the real code: Exchange returns (watchdog), does not panic, closes the connection. Non-trivial: the transcript gets past the handshake (>= 1 protocol line consumed after it) ; distinct by case line.", func(c *Ctx) {
 		var cases []Case
+		hangs := 0
 		add := func(s *sessSpec, input []byte, class, desc string) {
+			if hangs >= 3 {
+				return // every hang costs a watchdog period; three are enough to report
+			}
+			var m0, m1 runtime.MemStats
+			runtime.ReadMemStats(&m0)
 			r := runSessionImpl(s, input)
+			runtime.ReadMemStats(&m1)
+			if r.hung {
+				hangs++
+			}
+			if alloc := m1.TotalAlloc - m0.TotalAlloc; alloc > 48<<20+uint64(len(input))*2000 {
+				c.Violate("C03:allocation-out-of-proportion:"+class, fmt.Sprintf("the session allocated %d MB while handling a %d-byte transcript", alloc>>20, len(input)),
+					map[string]interface{}{"role_master": s.master, "transcript_hex": trunc(hx(input), 12000), "transcript_len": len(input), "allocated_bytes": alloc})
+			}
 			rep := map[string]interface{}{"role_master": s.master, "outbound_pending": len(s.outbox), "batched": s.batched, "transcript_hex": trunc(hx(input), 12000), "transcript_len": len(input), "mutation": class, "error": fmt.Sprint(r.err)}
 			switch {
 			case r.panicked != nil:
 				c.Violate("C03:panic:"+class, fmt.Sprintf("Exchange panicked on remote input: %v", r.panicked), rep)
 			case r.hung:
-				c.Violate("C03:hang:"+class, "Exchange did not return within 20 s after the input ended", rep)
+				c.Violate("C03:hang:"+class, "Exchange did not return within 8 s after the input ended", rep)
 			case !r.closed:
 				c.Violate("C03:not-closed:"+class, "Exchange returned without closing the connection", rep)
 			}
@@ -167,6 +186,113 @@ func init() {
 				for j := 0; j < per && c.TimeLeft(); j++ {
 					m, kind := mutate(c, x.t)
 					add(x.s, m, kind, "mutated transcript ("+kind+")")
+				}
+			}
+		}
+		// 4. crafted inbound transfers: conforming handshake, proposal block (correct F> checksum), SOH/STX/EOT
+		// framing with correct lengths and checksum around HOSTILE payloads and sizes, accepted by the handler
+		{
+			mkB2 := func(size int, body []byte, goodCRC bool) []byte {
+				p := append(le32b(size), body...)
+				sum := crc16Xmodem(p)
+				if !goodCRC {
+					sum ^= 0x5a5a
+				}
+				return append([]byte{byte(sum), byte(sum >> 8)}, p...)
+			}
+			lz := func(plain []byte) []byte { _, comp := implLzw(true, plain, nil, false); return comp }
+			validMsg := newOutMsg(genMessage(c.Rng, "LA1B", "N0CALL", 300)).data
+			validLz := lz(validMsg)
+			type pl struct {
+				name  string
+				data  []byte
+				csize string // proposal field; "" = the real length
+			}
+			body := validLz[6:]
+			payloads := []pl{
+				{"valid", validLz, ""},
+				{"valid-lz-of-garbage", lz([]byte("this is not a winlink message\r\n")), ""},
+				{"size-minus-one-good-crc", mkB2(-1, nil, true), ""},
+				{"size-minus-one-bad-crc", mkB2(-1, []byte{1, 2, 3}, false), ""},
+				{"size-min-int32", mkB2(-1<<31, body, true), ""},
+				{"size-huge-tiny-body", mkB2(1<<31-1, []byte{0x55}, true), ""},
+				{"size-too-small(overrun)", mkB2(len(validMsg)/2, body, true), ""},
+				{"size-too-large", mkB2(len(validMsg)+60, body, true), ""},
+				{"truncated-body", mkB2(len(validMsg), body[:len(body)/2], true), ""},
+				{"truncated-last-byte", mkB2(len(validMsg), body[:len(body)-1], true), ""},
+				{"six-zero-bytes", make([]byte, 6), ""},
+				{"five-bytes", []byte{1, 2, 3, 4, 5}, ""},
+				{"empty-payload", nil, ""},
+				{"body-size-negative", lz([]byte("Mid: AAAA\r\nBody: -1\r\nDate: 2020/01/01 10:00\r\n\r\nhi")), ""},
+				{"body-size-huge", lz([]byte("Mid: AAAA\r\nBody: 99999999999\r\nDate: 2020/01/01 10:00\r\n\r\nhi")), ""},
+				{"file-size-negative", lz([]byte("Mid: AAAA\r\nBody: 2\r\nFile: -5 x.txt\r\nDate: 2020/01/01 10:00\r\n\r\nhi\r\n")), ""},
+				{"no-headers", lz([]byte("\r\n\r\n")), ""},
+				{"proposal-csize-negative", validLz, "-1"},
+				{"proposal-csize-min-int", validLz, "-9223372036854775808"},
+				{"proposal-csize-huge", validLz, "268435456"},
+				{"proposal-csize-overflow", validLz, "99999999999999999999"},
+				{"proposal-csize-off-by-one", validLz, fmt.Sprint(len(validLz) + 1)},
+			}
+			for i := 0; i < c.Budget(6, 60); i++ {
+				b := make([]byte, 6+c.Rng.Intn(200))
+				c.Rng.Read(b)
+				payloads = append(payloads, pl{"random-payload", b, ""})
+			}
+			frame := func(data []byte, blk int) []byte {
+				f := []byte{1, byte(len("t") + 1 + 2), 't', 0, '0', 0}
+				sum := 0
+				for o := 0; o < len(data); o += blk {
+					e := o + blk
+					if e > len(data) {
+						e = len(data)
+					}
+					f = append(f, 2, byte(e-o)) // a full 256-byte block is announced as 0
+					f = append(f, data[o:e]...)
+				}
+				for _, x := range data {
+					sum += int(x)
+				}
+				return append(f, 4, byte(-sum))
+			}
+			for _, master := range []bool{false, true} {
+				for _, batched := range []bool{false, true} {
+					for gi := 0; gi < len(payloads); gi += 1 + c.Rng.Intn(2) {
+						// one or two payloads per block
+						group := []pl{payloads[gi]}
+						if c.Rng.Intn(3) == 0 {
+							group = append(group, payloads[c.Rng.Intn(len(payloads))])
+						}
+						var t []byte
+						if master {
+							t = append(t, "[WL2K-5.0-B2FWIHJM$]\r; N0CALL DE LA1B (JP20)\r"...)
+						} else {
+							t = append(t, "[WL2K-5.0-B2FWIHJM$]\rCMS via test >\r"...)
+						}
+						sum := 0
+						names := []string{}
+						for k, g := range group {
+							cs := g.csize
+							if cs == "" {
+								cs = fmt.Sprint(len(g.data))
+							}
+							line := fmt.Sprintf("FC EM CRAFT%02d%02d %d %s 0", gi%100, k, 300, cs)
+							for _, x := range []byte(line) {
+								sum += int(x)
+							}
+							sum += 13
+							t = append(t, line+"\r"...)
+							names = append(names, g.name)
+						}
+						t = append(t, fmt.Sprintf("F> %02X\r", byte(-sum))...)
+						for _, g := range group {
+							blk := []int{1, 7, 125, 255, 256}[c.Rng.Intn(5)]
+							t = append(t, frame(g.data, blk)...)
+						}
+						t = append(t, "FF\r"...)
+						sp := newSpec("N0CALL", "LA1B", master)
+						sp.batched = batched
+						add(sp, t, "crafted-payload", "crafted inbound transfer "+strings.Join(names, "+"))
+					}
 				}
 			}
 		}
